@@ -802,6 +802,130 @@ def corr_chain(ck: Ck, root: str, pool):
 
 
 # ------------------------------------------------------------------------------------------------ oracle: single backends
+# ------------------------------------------------------------------------------------------------ oracle: histories of walks
+# A walk is a generator: the consumer may stop after k items (break, any(), next(iter(fs))), an exception may be raised in
+# the loop body or thrown into the generator, two walks may be interleaved.  Nothing of that may change what a later
+# complete walk of the folder (any spelling, '' and iteration included) lists.
+ABANDON_MODES = ('take0', 'take1', 'take2', 'all-but-one', 'any', 'body-raises', 'throw', 'close', 'interleaved')
+
+
+class _ConsumerFailed(Exception):
+    pass
+
+
+def abandon_walk(make_gen, mode: str, n_expected: int = 0):
+    """Start the walk make_gen() and give it up the way `mode` says.  Returns None, or for 'interleaved' the pair
+    (items of a second walk started and exhausted while the first was suspended, all items of the first walk)."""
+    if mode in ('take0', 'take1', 'take2', 'all-but-one'):
+        g = make_gen()
+        for _ in range(max(n_expected - 1, 0) if mode == 'all-but-one' else int(mode[-1])):
+            next(g, None)
+        del g
+    elif mode == 'any':
+        any(True for _ in make_gen())
+    elif mode == 'body-raises':
+        try:
+            for _f in make_gen():
+                raise _ConsumerFailed()
+        except _ConsumerFailed:
+            pass
+    elif mode == 'throw':
+        g = make_gen()
+        next(g, None)
+        try:
+            g.throw(_ConsumerFailed())
+        except (_ConsumerFailed, StopIteration):
+            pass
+    elif mode == 'close':
+        g = make_gen()
+        next(g, None)
+        next(g, None)
+        g.close()
+    elif mode == 'interleaved':
+        g = make_gen()
+        first = [f.path for f in itertools.islice(g, 1)]
+        second = [f.path for f in make_gen()]
+        return second, first + [f.path for f in g]
+    else:
+        raise ValueError(mode)
+    return None
+
+
+def backend_walk_expect(name: str, files, sm, folder: str, fcls: str):
+    """(expected sorted listing, how to normalise a listed path) of one backend for one folder argument."""
+    if name == 'raw':
+        fe = os.path.normpath(folder.replace('\\', '/')) if fcls.startswith('unnormalised') else folder.replace('\\', '/').rstrip('/')
+        fe = '' if fe == '.' else fe
+        return sorted(nm for nm, _ in files if fe == '' or nm.startswith(fe + '/')), (lambda p: p)
+    return sorted(k for k in sm if spec_inside(folder, k)), fold
+
+
+def walk_history_case(fs, name: str, files, folder: str, fcls: str, mode: str, again: str, use_iter: bool) -> list[tuple[str, str, dict]]:
+    """One history on one backend object: a walk of `folder` is given up the way `mode` says, then `again` (the same
+    folder, possibly spelt differently) is walked completely - and, for the root, the object is iterated."""
+    out: list[tuple[str, str, dict]] = []
+    sm = spec_map(files)
+    exp, norm = backend_walk_expect(name, files, sm, folder, fcls)
+    make = (lambda: iter(fs)) if use_iter else (lambda: fs.walk_folder(folder))
+    rep = {'op': 'walk-history', 'backend': name, 'files': [(a, b.decode()) for a, b in files], 'folder': folder, 'folder_class': fcls,
+           'mode': mode, 'then_walk': again, 'first_walk_is_iter': use_iter, 'expected': exp}
+    try:
+        inter = abandon_walk(make, mode, len(exp))
+    except Exception as e:      # noqa: BLE001 - whatever comes out of an abandoned walk other than what was thrown in
+        return [(f'walk-{name}-abandoned-walk-raises', f'{name}: giving up a walk of {folder!r} ({mode}) raised {type(e).__name__}: {e}', rep)]
+    if inter is not None:
+        for label, listing in (('started while another walk was suspended', inter[0]), ('suspended while another walk ran', inter[1])):
+            if sorted(norm(p) for p in listing) != exp:
+                out.append((f'walk-{name}-interleaved-walks-interfere', f'{name}.walk_folder({folder!r}) {label} listed {sorted(listing)}, '
+                            f'expected {exp}', rep))
+    listings = [(f'walk_folder({again!r})', impl_walk(fs, again))]
+    if folder == '':
+        try:
+            listings.append(('iter(fs)', [f.path for f in fs]))
+        except Exception as e:      # noqa: BLE001
+            listings.append(('iter(fs)', f'{type(e).__name__}: {e}'))
+    for what, w in listings:
+        if isinstance(w, str) or sorted(norm(p) for p in w) != exp:
+            out.append((f'walk-{name}-wrong-after-abandoned-walk', f'{name}: after a walk of {folder!r} was given up ({mode}), the complete '
+                        f'{what} listed {w if isinstance(w, str) else sorted(w)}, expected {exp}', rep))
+            break
+    return out
+
+
+def check_walk_histories(bt: 'Built', files, rng: random.Random, stats=None, hist=None) -> list[tuple[str, str, dict]]:
+    """Abandoned walks followed by complete ones, on backends nobody has walked yet."""
+    out: list[tuple[str, str, dict]] = []
+    sm = spec_map(files)
+    dirs = sorted({'/'.join(nm.split('/')[:i]) for nm, _ in files for i in range(1, len(nm.split('/')))})
+    # (folder as first walked, class, the same folder spelt differently for the walk that follows)
+    plan: list[tuple[str, str, str]] = [('', 'root', '')]
+    for d in dirs[:3]:
+        plan.append((d, 'exact', d + '/'))
+    plan.append(('', 'root', '.'))
+    modes = list(ABANDON_MODES)
+    rng.shuffle(modes)
+    for name in BACKENDS:
+        fs = bt.fs[name]
+        for i, (folder, fcls, again) in enumerate(plan):
+            mode = modes[(i + BACKENDS.index(name)) % len(modes)]
+            if name != 'raw' and again and again != '.' and rng.random() < 0.5:
+                again = _recase(rng, again).replace('/', '\\')
+            use_iter = folder == '' and rng.random() < 0.5
+            out += walk_history_case(fs, name, files, folder, fcls, mode, again, use_iter)
+            if hist is not None:
+                hist('walk_history_mode', mode)
+            if stats is not None:
+                stats('walk_history_observations', 1)
+        # lookups are untouched by the walks that went before
+        for nm, b in files:
+            ex, got, _op = impl_lookup(fs, nm)
+            okb = {b} if name == 'raw' else {x for _, x in sm[fold(nm)]}
+            if ex is not True or got not in okb:
+                out.append((f'lookup-{name}-wrong-after-abandoned-walk', f'{name}: after abandoned walks {nm!r}: exists={ex!r} get={got!r}',
+                            {'op': 'backends', 'files': [(a, b.decode()) for a, b in files], 'seed': 0, 'query': nm}))
+    return out
+
+
 CORPUS_SETS = [
     [('materials/Brick/wall.vmt', b'1'), ('mat/x.txt', b'2'), ('materials/a.vmt', b'3'), ('top.txt', b'4'), ('.dot', b'5'),
      ('sub/deep/er/f.txt', b'6'), ('noext', b'7'), ('sub/noext2', b'8')],
@@ -811,11 +935,22 @@ CORPUS_SETS = [
 ]
 
 
-def check_backends(root: str, files, rng: random.Random, stats=None) -> list[tuple[str, str, dict]]:
+def check_backends(root: str, files, rng: random.Random, stats=None, hist=None) -> list[tuple[str, str, dict]]:
     """All violations of the single-backend part of the property on one file set: (key, what, replay)."""
     out: list[tuple[str, str, dict]] = []
     bt = Built(root, files)
     try:
+        # histories of walks: on the very objects the oracles below use (they then run on objects with a past), or on a
+        # second set of backends (the oracles below then see objects nobody has touched)
+        hrng = random.Random(rng.randrange(1 << 30))
+        if hrng.random() < 0.5:
+            out += check_walk_histories(bt, files, hrng, stats, hist)
+        else:
+            bth = Built(root, files)
+            try:
+                out += check_walk_histories(bth, files, hrng, stats, hist)
+            finally:
+                bth.close()
         sm = spec_map(files)
         has_dups = any(len(v) > 1 for v in sm.values())
         fj = [(a, b.decode()) for a, b in files]
@@ -1339,12 +1474,15 @@ def check_content(root: str, sized, params: dict, stats=None, hist=None) -> list
 
 
 # ------------------------------------------------------------------------------------------------ oracle: chains
-def check_chain(root: str, sets, members, rng: random.Random, stats=None) -> list[tuple[str, str, dict]]:
+def check_chain(root: str, sets, members, rng: random.Random, stats=None, seed=None, hist=None) -> list[tuple[str, str, dict]]:
     """members: [(backend kind, set index, prefix, priority)]. Reference computed from the file sets only."""
     from srctools.filesys import FileSystemChain
     out: list[tuple[str, str, dict]] = []
     builts = [Built(root, s) for s in sets]
     rep = {'op': 'chain', 'sets': [[(a, b.decode()) for a, b in s] for s in sets], 'members': [list(m) for m in members]}
+    if seed is not None:
+        rng = random.Random(seed)
+        rep['seed'] = seed
     try:
         ch = FileSystemChain()
         order: list[tuple] = []
@@ -1356,7 +1494,10 @@ def check_chain(root: str, sets, members, rng: random.Random, stats=None) -> lis
                     read_forms(ch, nm, 'utf8')
                     read_forms(ch, nm.rsplit('/', 1)[-1], 'utf8')
                 try:
-                    [fl.path for fl in ch.walk_folder('')]
+                    if rng.random() < 0.5:
+                        [fl.path for fl in ch.walk_folder('')]
+                    else:
+                        abandon_walk(lambda: ch.walk_folder(''), rng.choice(['take1', 'take2', 'any', 'close']))
                 except Exception:      # noqa: BLE001 - judged below on the finished chain
                     pass
             ch.add_sys(builts[j].fs[kind], pfx, priority=prio)
@@ -1434,7 +1575,7 @@ def check_chain(root: str, sets, members, rng: random.Random, stats=None) -> lis
                     elif not p and c in ('exact', 'case-variant'):
                         folders.append((f, c))
             folders = list(dict.fromkeys(folders))[:6]
-        for folder, fcls in folders:
+        def chain_exp(folder: str, order) -> dict:
             exp: dict[str, set] = {}
             for kind, j, pfx in order:
                 p = _pfx(pfx)
@@ -1458,6 +1599,39 @@ def check_chain(root: str, sets, members, rng: random.Random, stats=None) -> lis
                             continue
                         content = {b for _, b in sms[j][fk]}
                     exp.setdefault(relk, content)
+            return exp
+
+        # histories of walks: a walk of the chain (lazy over its members' walks) is given up, then the folder is walked completely
+        if len(ch.systems) == len(order):
+            hmodes = list(ABANDON_MODES)
+            rng.shuffle(hmodes)
+            for hi, (folder, _fcls) in enumerate(folders[:2] + [('', 'root')]):
+                mode = hmodes[hi]
+                which = rng.choice(['walk_folder', 'walk_folder_repeat', 'iter'] if folder == '' else ['walk_folder', 'walk_folder_repeat'])
+                make = {'walk_folder': lambda: ch.walk_folder(folder), 'walk_folder_repeat': lambda: ch.walk_folder_repeat(folder),
+                        'iter': lambda: iter(ch)}[which]
+                hrep = dict(rep, folder=folder, history=[f'chain.{which}({folder!r}) given up ({mode})', f'complete chain.walk_folder({folder!r})'])
+                exp = chain_exp(folder, order)
+                try:
+                    inter = abandon_walk(make, mode, len(exp))
+                    after = [fl.path for fl in ch.walk_folder(folder)]
+                except Exception as e:      # noqa: BLE001
+                    out.append(('chain-walk-abandoned-walk-raises', f'chain: giving up {which}({folder!r}) ({mode}) and walking again raised {type(e).__name__}: {e}', hrep))
+                    continue
+                if hist is not None:
+                    hist('chain_walk_history_mode', mode)
+                if stats is not None:
+                    stats('chain_walk_history_observations', 1)
+                if inter is not None and which != 'walk_folder_repeat':
+                    for label, listing in (('started while another walk was suspended', inter[0]), ('suspended while another walk ran', inter[1])):
+                        if sorted(fold(p) for p in listing) != sorted(exp):
+                            out.append(('chain-walk-interleaved-walks-interfere', f'chain.{which}({folder!r}) {label} listed {sorted(listing)}, expected {sorted(exp)}', hrep))
+                if sorted(fold(p) for p in after) != sorted(exp):
+                    out.append(('chain-walk-wrong-after-abandoned-walk', f'chain: after {which}({folder!r}) was given up ({mode}), the complete walk listed '
+                                f'{sorted(after)}, expected {sorted(exp)}', hrep))
+
+        for folder, fcls in folders:
+            exp = chain_exp(folder, order)
             try:
                 listed = []
                 for fl in ch.walk_folder(folder):
@@ -1528,6 +1702,58 @@ def check_chain(root: str, sets, members, rng: random.Random, stats=None) -> lis
                         if again != b:
                             out.append(('chain-walk-listed-name-not-found', f'chain: listed {p!r} with content {b!r} looks up to {again!r}',
                                         dict(rep, folder=folder)))
+        # the public list `systems` is edited directly after all those lookups and walks (packlist removes a member it
+        # mounted with systems.pop(0)): every answer is that of the members now mounted, in their order
+        if len(ch.systems) == len(order) and len(order) > 1:
+            edits = ['pop-first', 'reverse', 'rotate', 'pop-last', 'swap-first-two', 'insert-copy-of-last-first']
+            rng.shuffle(edits)
+            done_edits: list[str] = []
+            for edit in edits[:3]:
+                if len(order) < 2:
+                    break
+                for lst in (ch.systems, order):
+                    if edit == 'pop-first':
+                        lst.pop(0)
+                    elif edit == 'reverse':
+                        lst.reverse()
+                    elif edit == 'rotate':
+                        lst.append(lst.pop(0))
+                    elif edit == 'pop-last':
+                        del lst[-1]
+                    elif edit == 'swap-first-two':
+                        lst[0], lst[1] = lst[1], lst[0]
+                    else:
+                        lst.insert(0, lst[-1])
+                done_edits.append(edit)
+                if hist is not None:
+                    hist('chain_systems_edit', edit)
+                erep = dict(rep, systems_edits=list(done_edits))
+                for q in allq:
+                    want = None
+                    for kind, j, pfx in order:
+                        want = member_has(kind, j, pfx, q)
+                        if want is not None:
+                            break
+                    forms = read_forms(ch, q, 'utf8')
+                    if stats is not None:
+                        stats('chain_get_observations', len(forms))
+                    bad = forms_problems(forms, want)
+                    if bad:
+                        out.append(('chain-stale-after-systems-edit-' + bad[0][0], f'chain after systems edits {done_edits}: {bad[0][0]}({q!r}) gave {forms[bad[0][0]]!r}, '
+                                    f'the first member now holding the name has {want!r}', dict(erep, query=q)))
+                        break
+                exp = chain_exp('', order)
+                try:
+                    listed = []
+                    for fl in ch.walk_folder(''):
+                        with fl.open_bin() as fh:
+                            listed.append((fold(fl.path), fh.read()))
+                except Exception as e:      # noqa: BLE001
+                    out.append(('chain-walk-exception', f'chain.walk_folder(\'\') after systems edits {done_edits} raised {type(e).__name__}: {e}', erep))
+                    continue
+                if sorted(k for k, _ in listed) != sorted(exp) or any(b not in exp[k] for k, b in listed):
+                    out.append(('chain-stale-after-systems-edit-walk', f'chain after systems edits {done_edits}: walk_folder(\'\') listed {sorted(listed)}, '
+                                f'expected {sorted((k, sorted(v)) for k, v in exp.items())}', erep))
     finally:
         for b in builts:
             b.close()
@@ -1643,7 +1869,7 @@ def search(ck: Ck, root: str) -> None:
         if hangs[0] >= MAX_HANGS:
             break
         brep = {'op': 'backends', 'files': [(a, b.decode()) for a, b in files], 'seed': seed}
-        v = guarded('backends', lambda: check_backends(root, files, random.Random(seed), stats), brep)
+        v = guarded('backends', lambda: check_backends(root, files, random.Random(seed), stats, ck.hist), brep)
         for key in {k for k, _, _ in v}:
             if unshrinkable(key):
                 note([x for x in v if x[0] == key])
@@ -1725,8 +1951,8 @@ def search(ck: Ck, root: str) -> None:
             seed = ck.rng.randrange(1 << 30)
             if hangs[0] >= MAX_HANGS:
                 break
-            note(guarded('chain', lambda: check_chain(root, sets, list(perm), random.Random(seed), stats),
-                         {'op': 'chain', 'sets': [[(a, b.decode()) for a, b in s] for s in sets], 'members': [list(m) for m in perm]}))
+            note(guarded('chain', lambda: check_chain(root, sets, list(perm), None, stats, seed, ck.hist),
+                         {'op': 'chain', 'sets': [[(a, b.decode()) for a, b in s] for s in sets], 'members': [list(m) for m in perm], 'seed': seed}))
     ck.sample({'chain_members(kind,set,prefix,priority)': [list(x) for x in CORPUS_CHAINS[2][1]],
                'sets': [[nm for nm, _ in s] for s in CORPUS_CHAINS[2][0]]})
     for key, (what, rep) in sorted(found.items()):
@@ -1992,6 +2218,15 @@ def replay(data: dict) -> int:
                 if k == data.get('key'):
                     print('REPRODUCED', k, '-', what)
                     break
+        elif r.get('op') == 'walk-history':
+            files = [(a, b.encode()) for a, b in r['files']]
+            bt = Built(root, files)
+            try:
+                for k, what, _ in guarded('backends', lambda: walk_history_case(bt.fs[r['backend']], r['backend'], files, r['folder'], r['folder_class'],
+                                                                               r['mode'], r['then_walk'], r['first_walk_is_iter']), r):
+                    print('FOUND', k, '-', what)
+            finally:
+                bt.close()
         elif r.get('op') == 'backends':
             files = [(a, b.encode()) for a, b in r['files']]
             for k, what, _ in guarded('backends', lambda: check_backends(root, files, random.Random(r.get('seed', 0))), r):
@@ -2007,7 +2242,7 @@ def replay(data: dict) -> int:
         elif r.get('op') == 'chain':
             sets = [[(a, b.encode()) for a, b in s] for s in r['sets']]
             members = [tuple(m) for m in r['members']]
-            for k, what, _ in guarded('chain', lambda: check_chain(root, sets, members, random.Random(data.get('seed', 0))), r):
+            for k, what, _ in guarded('chain', lambda: check_chain(root, sets, members, None, None, r.get('seed', data.get('seed', 0))), r):
                 print('FOUND', k, '-', what)
         else:
             print(r)
